@@ -90,6 +90,12 @@ static bool vf_md5(const void *data, size_t nbytes, void *retbuf) {
 #undef qhashmurmur3_32
 #undef qhashmd5
 
+/* the image assertions belong to C06 (contents, accounting) in the C06 queries and to C07 (well-formedness) in the C07 queries */
+#ifdef VF_C07
+#define FP "C07.wf."
+#else
+#define FP "C06."
+#endif
 #define D Q_HASHARR_DATASIZE
 #define E ((int)sizeof(struct Q_HASHARR_SLOT_KEYVAL))
 #define NS Q_HASHARR_NAMESIZE
@@ -403,8 +409,8 @@ void vf_harness(void) {
         } else {
             VF_COVER("put-failed-unchanged");
         }
-        if (ok) VF_ASSERT(image_ok(mem, true), "C06.put.effect: after a successful put the table holds exactly the ideal map; counters and image are well-formed");
-        else VF_ASSERT(image_ok(mem, true), "C06.put.failed: a failed put never alters another key and leaves its own key unchanged or absent; image stays well-formed");
+        if (ok) VF_ASSERT(image_ok(mem, true), FP "put.effect: after a successful put the table holds exactly the ideal map; counters and image are well-formed");
+        else VF_ASSERT(image_ok(mem, true), FP "put.failed: a failed put never alters another key and leaves its own key unchanged or absent; image stays well-formed");
     }
 #elif VF_OP == OP_GET
     {
@@ -421,7 +427,7 @@ void vf_harness(void) {
         } else {
             VF_ASSERT(p == NULL && errno == ENOENT, "C06.get.absent: get of a key that is not stored reports not-found");
         }
-        VF_ASSERT(image_ok(mem, true), "C06.get.pure: get does not change the image");
+        VF_ASSERT(image_ok(mem, true), FP "get.pure: get does not change the image");
         if (p) {
             /* C07: a second handle on a byte-for-byte copy at another address sees the same */
             vf_region_t *mem2_t = malloc(sizeof(vf_region_t));
@@ -452,7 +458,7 @@ void vf_harness(void) {
         bool ok = t->remove_by_obj(t, (const char *)kb, opkl);
         VF_ASSERT(ok == (VF_KCLASS >= 0), "C06.remove.ret: remove succeeds exactly for stored keys");
         if (ok && VF_KCLASS >= 0) gpresent[VF_KCLASS >= 0 ? VF_KCLASS : 0] = 0;
-        VF_ASSERT(image_ok(mem, true), "C06.remove.effect: remove deletes only that key, releases exactly its slots, and leaves a well-formed image");
+        VF_ASSERT(image_ok(mem, true), FP "remove.effect: remove deletes only that key, releases exactly its slots, and leaves a well-formed image");
     }
 #elif VF_OP == OP_REMOVE_IDX
     {
@@ -463,7 +469,7 @@ void vf_harness(void) {
         bool iskey = L_KIND[VF_IDX] == 1 || L_KIND[VF_IDX] == 2;
         VF_ASSERT(ok == iskey, "C06.removeidx.ret: remove-by-index succeeds exactly when the index holds a key");
         if (ok) for (int c = 0; c < NK; c++) if (CH_KEYSLOT[c] == VF_IDX) gpresent[c] = 0;
-        VF_ASSERT(image_ok(mem, true), "C06.removeidx.effect: remove-by-index deletes only that key and leaves a well-formed image");
+        VF_ASSERT(image_ok(mem, true), FP "removeidx.effect: remove-by-index deletes only that key and leaves a well-formed image");
     }
 #elif VF_OP == OP_WALK
     {
@@ -493,13 +499,13 @@ void vf_harness(void) {
             cnt++;
         }
         VF_ASSERT(cnt == NK, "C06.walk.count: the walk returns every stored key exactly once and then ends");
-        VF_ASSERT(image_ok(mem, true), "C06.walk.pure: walking does not change the image");
+        VF_ASSERT(image_ok(mem, true), FP "walk.pure: walking does not change the image");
     }
 #elif VF_OP == OP_CLEAR
     {
         t->clear(t);
         for (int c = 0; c < NKK + 1; c++) gpresent[c] = 0;
-        VF_ASSERT(image_ok(mem, true), "C06.clear: clear empties the table and leaves a well-formed image");
+        VF_ASSERT(image_ok(mem, true), FP "clear: clear empties the table and leaves a well-formed image");
         int mx, us;
         VF_ASSERT(t->size(t, &mx, &us) == 0 && mx == M && us == 0, "C06.clear.counters: counters are zero after clear");
     }
@@ -514,7 +520,7 @@ void vf_harness(void) {
         int mx = -1, us = -1, n = t->size(t, &mx, &us);
         int wantn = 0; size_t wantu = 0;
         for (int j = 0; j < NKK + 1; j++) if (gpresent[j]) { wantn++; wantu += gslots[j]; }
-        VF_ASSERT(n == wantn && mx == M && us == (int)wantu, "C06.counters: reported key count and used-slot count equal the stored keys and the slots their values occupy");
+        VF_ASSERT(n == wantn && mx == M && us == (int)wantu, FP "counters: reported key count and used-slot count equal the stored keys and the slots their values occupy");
     }
     if (kb) free(kb);
     t->free(t);
